@@ -200,6 +200,13 @@ func (i *Importer) Commit() error {
 		}
 	case 1:
 		i.stack[0].nodeKey.nonce = 1
+		if i.stack[0].nodeKey.version < i.version {
+			// The root was created by an earlier version, which does not exist in
+			// this database: store it the way pruning leaves the root of a deleted
+			// version, under nonce 0, so that the version is not reported and the
+			// node is found when it is orphaned later.
+			i.stack[0].nodeKey.nonce = 0
+		}
 		if err := i.writeNode(i.stack[0]); err != nil {
 			return err
 		}
